@@ -288,5 +288,5 @@ def r4(prog, rep):
     rep.ob("R4", "each leg runs from the X-point to its wall intersection; exactly two legs per X-point", ok, fl.site(), "", key="legs/shape")
     init = mod.funcs.get("TokamakEquilibrium.__init__")
     src = T(mod, init.node)
-    ok = K("self.x_points=[Point2D(r,z)forr,z,psiinxpoints]") in src and K("self.psi_sep=[psiforr,z,psiinxpoints]") in src
+    ok = K("self.x_points = [Point2D(r, z) for r, z, psi in xpoints]") in src and K("self.psi_sep = [psi for r, z, psi in xpoints]") in src
     rep.ob("R4", "x_points and psi_sep are parallel lists in find_critical's order", ok, init.site(), "", key="select/parallel-lists")
